@@ -575,3 +575,42 @@ Fixpoint au_explain (fuel : nat) (ws : list (list bytes)) (log : bytes) : option
       end
     end
   end.
+
+(* ------------------------------------------------------------------------------------------ *)
+(* 6. the shared-write footprint of the evaluation path (regenerated facts: coq/gen/FactsC06.v) *)
+(* ------------------------------------------------------------------------------------------ *)
+(* One element per syntactic WRITE found by the go/ast translator (harness/cmd/verif-facts/c06.go)
+   in internal/corazawaf whose target is reachable from state shared between goroutines:
+     fw_root = "rule" | "rulegroup" | "waf"  : rooted at a *Rule / *RuleGroup / *WAF (receiver,
+               parameter, tx.WAF..., alias such as r := &rg.rules[i]) inside a function reachable
+               from RuleGroup.Eval or a Transaction / NewTransaction entry point;
+     fw_root = "rangecopy" : through a reference held by a COPY of a shared struct (range variable
+               or local copy): index / map write, or an append that is not clipped to x[:len:len]
+               and may therefore store into the shared backing array (F27);
+     fw_root = "pkgvar" : a package-level variable, anywhere in the package (WAFs are built and
+               closed concurrently with transactions of other WAFs);
+   fw_lock  = the mutex the function holds (X.Lock() ... defer X.Unlock()), "" if none;
+   fw_dead  = the statement is only reachable under `if multiphaseEvaluation` while that constant
+               is false in the default build. *)
+From Coq Require Import String.
+
+Record fw := mk_fw {
+  fw_file : string; fw_func : string; fw_stmt : string; fw_root : string; fw_lock : string; fw_dead : bool }.
+
+(* THE ALLOW-LIST.  Nothing on the evaluation path may write shared state, except:
+   - the transformation-id intern table (package variables transformationIDToName /
+     transformationNameToID), written only by transformationID while it holds
+     transformationIDsLock: modelled by it_intern as ONE atomic step per call (section 3);
+   - statements that are dead code in the default build (multiphase evaluation off). *)
+Definition fw_allowed (w : fw) : bool :=
+  (String.eqb (fw_root w) "pkgvar" && String.eqb (fw_func w) "transformationID" &&
+   String.eqb (fw_lock w) "transformationIDsLock" &&
+   (String.eqb (fw_stmt w) "transformationIDToName = append(transformationIDToName, nextName)" ||
+    String.eqb (fw_stmt w) "transformationNameToID[nextName] = id"))
+  || fw_dead w.
+
+Definition fw_all_allowed (l : list fw) : bool := forallb fw_allowed l.
+
+(* the repaired statement of F27 must be present and recognised as a clipped append *)
+Definition fw_is_f27_merge (w : fw) : bool :=
+  String.eqb (fw_func w) "Rule.doEvaluate" && String.eqb (fw_root w) "rangecopy-clipped".
